@@ -5,7 +5,8 @@ DLG: each combinator's new remainder is (the payload of) the same-named
 Ok/Err with the method's ErrorKind.  TAB-SPLIT: one-step protocol tables of
 split / rsplit / split_terminator / rsplit_terminator / split_keep over
 (yielded flag, remainder empty, split_once Some/None, rest empty).
-StdParser::parse_with rows delegate to the matching parse_* method.
+StdParser::parse_with rows delegate to the matching parse_* method.  The integer/bool prefix parse itself
+(Parser::parse_<int>, parse_bool) is decided with C12's rule set (D3-SIGN, D3-DIGIT, REC, TAB-SIGN, TAB-BOOL).
 """
 from .. import sym, table
 from ..sym import show
@@ -251,9 +252,27 @@ def run(ctx):
                 ctx.violation("DLG-STD", "%s|%s" % (cfg, ty), "StdParser<%s>::parse_with does not simply return Parser::%s(parser): %s" % (
                     ty, want, show(paths[0].value) if paths else "?"), b.file())
             ctx.instance("DLG-STD", "%s|%s" % (cfg, ty))
+        # ---------------- integer / bool prefix parse ------------------------------------
+        # The property's "integer/bool prefix parse" clause has no free string function to delegate to: the prefix parse *is* the
+        # Parser method (one expansion of parse_integer! each).  Its reference is the rule set C12 owns (sign byte, digit classes,
+        # multiply-add recurrence with both overflow exits, sign/limit table, consumed length, bool spellings); it is decided here
+        # too, on the same bodies, so that C14 stands alone.
+        from . import c12
+        for ty in c12.TYPES:
+            b = methods.get("parse_" + ty)
+            if b is None:
+                ctx.violation("ANCHOR", "%s|parse_%s" % (cfg, ty), "Parser::parse_%s not found" % ty)
+                continue
+            c12.integer(ctx, prog, F, b, ty)
+        c12.bool_(ctx, prog, F, methods.get("parse_bool"))
     ctx.floor("DLG", 10)
     ctx.floor("TAB-SPLIT", 5)
     ctx.floor("DLG-STD", 13)
+    ctx.floor("TAB-SIGN", 12)
+    ctx.floor("REC", 12)
+    ctx.floor("D3-DIGIT", 12)
+    ctx.floor("D3-SIGN", 12)
+    ctx.floor("TAB-BOOL", 1)
 
 
 def _cmp(ctx, rule, cfg, name, b, paths, rows, vdom):
